@@ -50,6 +50,19 @@ fn gen_set(rng: &mut Rng, universe: u64, max: usize) -> Vec<u32> {
 }
 
 fn c12(rng: &mut Rng, idx: usize) -> Case {
+    if idx % 10 == 9 {
+        // ancestor queries of all pairs of terms of an ontology (8 variants)
+        let mut c = Case::new("ancestor-queries");
+        let with_roots = rng.chance(1, 2);
+        let mt = *rng.pick(&[4usize, 8, 14]);
+        let (f, shape) = gen_facts(rng, &DagOpts { max_terms: mt, with_roots, max_recs: 1 });
+        c.stat(&format!("shape_{shape:?}"), 1);
+        let (multi, _) = facts_stats(&f, &mut c);
+        facts_to_prog(rng, &f, &ProgOpts { shuffle: true, failing_permille: 0, build_defaults: with_roots, slot: 0 }, &mut c);
+        c.op("anc2 0".to_string());
+        c.nontrivial = multi > 0;
+        return c;
+    }
     let mut c = Case::new("group-program");
     let universe = *rng.pick(&[6u64, 40, 100, 10_000_000]);
     let hows = ["vec", "vecu32", "set", "iter"];
